@@ -36,6 +36,11 @@ struct M
         U x = u(v);
         return s((U)((U)(x >> n) | (n ? (U)(x << (BITS - n)) : (U)0)));
     }
+    // what the library computes for SIGNED element types (open finding F2, pinned by the repository's own test_rotr):
+    // a rotation over numeric_limits<T>::digits = BITS-1 positions with an arithmetic right shift.  The kernels are
+    // additionally held to this formula, so that a change of the signed behaviour that is not the repair is still seen.
+    static T pinned_rotl(T v, int n) { return s((U)(u(shl(v, n)) | u(shr(v, n ? (BITS - 1) - n : 0)))); }
+    static T pinned_rotr(T v, int n) { return s((U)(u(shr(v, n)) | u(shl(v, n ? (BITS - 1) - n : 0)))); }
 };
 
 template <class T>
@@ -58,6 +63,46 @@ static const char* cls_rot(T, T, T)
 #define CVR(op, ar, expr, refexpr) \
     check_val<T, T>(VH_ST("C07", op), VH_ST("C13", op), ar, in, LAM3(expr), REF3((T)(refexpr)), REF3(true), EQ, cls_rot<T>, it)
 
+// signed element types: every lane must be EITHER the correct rotation OR the pinned formula of finding F2
+// (the correct rotation is never an alarm, so a repaired library stays silent here)
+template <class T>
+static void rot_signed(const Ops<T>& in, bool scalar_count)
+{
+    using B = xs::batch<T, ARCH>;
+    using MM = M<T>;
+    constexpr size_t N = B::size;
+    static OpStat& sl = reg("C07", scalar_count ? "rotl_signed_neither_rotation_nor_pinned_formula" : "rotl_lanes_signed_neither_rotation_nor_pinned_formula", tname<T>());
+    static OpStat& sr = reg("C07", scalar_count ? "rotr_signed_neither_rotation_nor_pinned_formula" : "rotr_lanes_signed_neither_rotation_nor_pinned_formula", tname<T>());
+    if (!sl.on && !sr.on)
+        return;
+    alignas(64) T ol[N], orr[N];
+    B va = B::load_aligned(in.a), vc = B::load_aligned(in.c);
+    mark_case("rot_signed", tname<T>(), &in, 3 * sizeof(in.a));
+    if (scalar_count)
+    {
+        xs::rotl(va, (int)in.c[0]).store_aligned(ol);
+        xs::rotr(va, (int)in.c[0]).store_aligned(orr);
+    }
+    else
+    {
+        xs::rotl(va, vc).store_aligned(ol);
+        xs::rotr(va, vc).store_aligned(orr);
+    }
+    for (size_t i = 0; i < N; ++i)
+    {
+        const int n = (int)(scalar_count ? in.c[0] : in.c[i]);
+        const T x = in.a[i];
+        sl.evals++;
+        sr.evals++;
+        sl.cell((unsigned)(n << 5 | in.ca[i]));
+        sr.cell((unsigned)(n << 5 | in.ca[i]));
+        if (sl.on && ol[i] != MM::rotl(x, n) && ol[i] != MM::pinned_rotl(x, n))
+            viol(sl, "unclassified", "{\"x\":\"" + hexv(x) + "\",\"n\":" + std::to_string(n) + ",\"got\":\"" + hexv(ol[i]) + "\",\"rotation\":\"" + hexv(MM::rotl(x, n)) + "\",\"pinned_formula\":\"" + hexv(MM::pinned_rotl(x, n)) + "\",\"lane\":" + std::to_string(i) + "}");
+        if (sr.on && orr[i] != MM::rotr(x, n) && orr[i] != MM::pinned_rotr(x, n))
+            viol(sr, "unclassified", "{\"x\":\"" + hexv(x) + "\",\"n\":" + std::to_string(n) + ",\"got\":\"" + hexv(orr[i]) + "\",\"rotation\":\"" + hexv(MM::rotr(x, n)) + "\",\"pinned_formula\":\"" + hexv(MM::pinned_rotr(x, n)) + "\",\"lane\":" + std::to_string(i) + "}");
+    }
+}
+
 // in.c holds per-lane counts in [0,BITS)
 template <class T>
 static void lane_ops(const Ops<T>& in, long it)
@@ -79,6 +124,8 @@ static void lane_ops(const Ops<T>& in, long it)
     CV("xs_rshift_lanes", 3, xs::bitwise_rshift(va, vc), MM::shr(x, (int)z));
     CVR("rotl_lanes", 3, xs::rotl(va, vc), MM::rotl(x, (int)z));
     CVR("rotr_lanes", 3, xs::rotr(va, vc), MM::rotr(x, (int)z));
+    if constexpr (std::is_signed<T>::value)
+        rot_signed<T>(in, false);
 }
 
 // scalar count k applied to all lanes
@@ -105,6 +152,8 @@ static void count_ops(const Ops<T>& in, int k, long it)
         CV("xs_rshift", 3, xs::bitwise_rshift(va, (int)vc.get(0)), MM::shr(x, (int)z));
         CVR("rotl", 3, xs::rotl(va, (int)vc.get(0)), MM::rotl(x, (int)z));
         CVR("rotr", 3, xs::rotr(va, (int)vc.get(0)), MM::rotr(x, (int)z));
+        if constexpr (std::is_signed<T>::value)
+            rot_signed<T>(in, true);
     }
 }
 
